@@ -131,11 +131,17 @@ def rule_b(ctx, out):
         else:
             out.bad(f"greedy_from_json:unprotected:{call_name(c)}", f"call {short(c, 60)} is outside try/except Exception",
                     where(f, c))
+    # the error flag: the last component of the returned tuple
+    flags = {r.value.elts[-1].id for r in own_nodes(f.node) if isinstance(r, ast.Return) and isinstance(r.value, ast.Tuple) and r.value.elts
+             and isinstance(r.value.elts[-1], ast.Name)}
+    if len(flags) != 1:
+        raise AnalysisError("greedy_from_json: the error flag (last component of the returned tuple) was not identified")
+    ERR = flags.pop()
     # error = 0 assignments: no risky call reachable afterwards (within normal flow) before the return
     zero_nodes, one_nodes = [], []
     for n in cfg.nodes:
         a = n.ast
-        if n.kind == "stmt" and isinstance(a, ast.Assign) and len(a.targets) == 1 and is_name(a.targets[0], "error") \
+        if n.kind == "stmt" and isinstance(a, ast.Assign) and len(a.targets) == 1 and is_name(a.targets[0], ERR) \
                 and isinstance(a.value, ast.Constant):
             (zero_nodes if a.value.value == 0 else one_nodes).append(n)
     if not zero_nodes:
@@ -152,7 +158,7 @@ def rule_b(ctx, out):
     # every handler of the protecting try sets error = 1 (or re-raises)
     for t in [n for n in own_nodes(f.node) if isinstance(n, ast.Try)]:
         for h in t.handlers:
-            sets = any(isinstance(s, ast.Assign) and is_name(s.targets[0], "error") and isinstance(s.value, ast.Constant)
+            sets = any(isinstance(s, ast.Assign) and is_name(s.targets[0], ERR) and isinstance(s.value, ast.Constant)
                        and s.value.value != 0 for s in ast.walk(h))
             raises = any(isinstance(s, ast.Raise) for s in ast.walk(h))
             if sets or raises:
@@ -161,7 +167,7 @@ def rule_b(ctx, out):
                 out.bad("greedy_from_json:handler-does-not-flag-error", "exception handler neither sets error = 1 nor re-raises", where(f, h))
     # returned tuple carries `error` last
     for r in [n for n in own_nodes(f.node) if isinstance(n, ast.Return)]:
-        if isinstance(r.value, ast.Tuple) and r.value.elts and is_name(r.value.elts[-1], "error"):
+        if isinstance(r.value, ast.Tuple) and r.value.elts and is_name(r.value.elts[-1], ERR):
             out.ok({"function": f.qual, "obligation": "returns error flag"})
         else:
             out.bad("greedy_from_json:return-without-error-flag", "return value does not carry the error flag", where(f, r))
